@@ -84,7 +84,7 @@ static void c18_merge(Case& cs) {
   std::string desc;
   std::vector<std::string> good_paths;
   std::vector<M::Preamble> earlier_pre;
-  bool near_dup = false, indexless = false;
+  bool near_dup = false, indexless = false, split_aec = false;
   for (unsigned i = 0; i < n; i++) {
     Input in; Contribution cb;
     in.path = cs.scratch + "/in" + std::to_string(i) + ".cdns";
@@ -149,6 +149,8 @@ static void c18_merge(Case& cs) {
       }
       // block-parameters-index is optional with default 0: inputs from other writers may omit it
       if (c.range(0, 3) == 0 && cref::drop_default_bp_index(root, c)) indexless = true;
+      // address events reported in more than one item of a block (counts differ): a merge must carry every item over
+      if (c.range(0, 3) == 0 && cref::split_aec_items(root, c)) split_aec = true;
       std::string bytes;
       cref::put_head_min(bytes, cref::ARR, 3);
       cref::encode(root.kids[0], bytes); cref::encode(root.kids[1], bytes);
@@ -236,6 +238,7 @@ static void c18_merge(Case& cs) {
   if (expect.empty()) cs.st.cls("expected_empty_output");
   if (near_dup) cs.st.cls("near_duplicate_parameter_sets");
   if (indexless) cs.st.cls("block_without_parameters_index");
+  if (split_aec) cs.st.cls("address_events_split_over_several_items");
   cs.st.cnt("blocks_compared", expect.size());
 }
 
@@ -257,6 +260,10 @@ static void c18_itemcount(Case& cs) {
   filegen::Opts fo;
   fo.max_records = 6 + cs.size;
   filegen::Result fr = filegen::make(c, cs.scratch, fo);
+  if (c.range(0, 3) == 0) {   // address events reported in more than one item of a block (counts differ): every item counts
+    cref::Node root; std::string perr;
+    if (cref::parse_all(fr.bytes, root, perr) && cref::split_aec_items(root, c)) { fr.bytes = cref::encode(root); cs.st.cls("address_events_split_over_several_items"); }
+  }
   M::FileM fm; cdnsref::Report rep;
   if (!cdnsref::interpret(fr.bytes, fm, rep) || !rep.ok()) { cs.st.cnt("blocked:generated_file_invalid"); return; }
   std::string path = cs.scratch + "/count.cdns";
